@@ -127,6 +127,15 @@ func c07Gen(r *Rand, tier string, scale int, emit func(Fields)) {
 		}
 		tcp = append(tcp, f)
 	}
+	// 6c. Quit() on connection 1, hang-up, reconnect at once: connection 2 must still be up 5.6 s
+	//     after the Quit (placed first so that they run side by side in different children)
+	nq := 2
+	if tier == "thorough" {
+		nq = 4
+	}
+	for i := 0; i < nq; i++ {
+		tcp = append([]Fields{F("lcquit", i%2, r.Intn(1000))}, tcp...)
+	}
 	// 7. random fill / thorough product
 	extra := scale - len(scripts) - len(tcp)
 	if tier == "thorough" {
@@ -158,7 +167,7 @@ func c07Gen(r *Rand, tier string, scale int, emit func(Fields)) {
 	for _, sc := range scripts {
 		ins = append(ins, sc.fields())
 	}
-	ins = append(ins, tcp...)
+	ins = append(tcp, ins...) // the long sessions first: one per child
 	lcPrefetch(ins, 12)
 	for _, in := range ins {
 		emit(in)
